@@ -58,6 +58,17 @@ def readHeader (b : List Nat) : Option Header := do
   else
     pure { version, numEntries, numPalettes, numColorRecords, recordsOffset, indices, v1Pos := none }
 
+/-- inner loop of `impl SubsetTable for &[ColorRecord]`: the records `first + e` for the retained
+entries `e`, in order; `self.get(record_idx)` = None ⇒ set_err(OTHER) -/
+def recordsOf (records : List Nat) (first : Nat) : List Nat → R (List Nat)
+  | [] => pure []
+  | e :: es =>
+    match slice records (4 * (first + e)) 4 with
+    | none => throw Err.fail
+    | some r => do
+      let rest ← recordsOf records first es
+      pure (r ++ rest)
+
 /-- `impl SubsetTable for &[ColorRecord]`: loop over the palettes' first indices; the state is
 (`first_record_idx_map` as an association list in insertion order, `new_idx`, the bytes written).
 `records` = the source `colorRecords` array bytes (`numColorRecords * 4` bytes). -/
@@ -67,14 +78,11 @@ def recordsGo (records : List Nat) (retained : List Nat) :
   | first :: rest, map, newIdx, out =>
     if (map.lookup first).isSome then recordsGo records retained rest map newIdx out
     else do
-      let recs ← retained.mapM fun e =>
-        match slice records (4 * (first + e)) 4 with
-        | none => throw Err.fail                      -- `self.get(record_idx)` = None: set_err(OTHER)
-        | some r => pure r
+      let recs ← recordsOf records first retained
       -- `new_idx` is a usize, stored `as u16` (fix 93c035d: an index beyond u16 implies the overflow
       -- reported by the caller)
       recordsGo records retained rest (map ++ [(first, newIdx % 65536)]) (newIdx + retained.length % 65536)
-        (out ++ recs.flatten)
+        (out ++ recs)
 
 /-- `Offset32::serialize_subset` of an object without links -/
 def packLeaf (packed : List Obj) (bytes : List Nat) (pos : Nat) (links : List Link) :
@@ -83,56 +91,76 @@ def packLeaf (packed : List Obj) (bytes : List Nat) (pos : Nat) (links : List Li
   | (pk, some i) => pure (pk, links ++ [⟨pos, 4, i⟩])
   | (_, none) => throw Err.dropped               -- `return Err(s.error())` with no error flag set
 
-/-- `Cpal::subset` -/
-def subsetCpal (b : List Nat) (palettes : List (Nat × Nat)) : R (List Nat) := do
-  let some h := readHeader b | throw Err.dropped
-  -- subset_v0
-  if palettes.isEmpty ∨ h.numPalettes = 0 then throw Err.dropped
-  let retained := (palettes.map (·.1)).filter (· ≠ 0xFFFF)
-  if retained.isEmpty then throw Err.dropped
-  let numColors := retained.length % 65536
-  -- `color_records_array()`: NULL offset or unreadable ⇒ set_err(READ_ERROR)
-  if h.recordsOffset = 0 then throw Err.fail
-  let some records := slice b h.recordsOffset (4 * h.numColorRecords) | throw Err.fail
-  let (map, recBytes) ← recordsGo records retained h.indices [] 0 []
-  let (packed, links) ← packLeaf [] recBytes 8 []
-  -- `u16::try_from(first_record_idx_map.len())…checked_mul(num_colors)`: set_err(INT_OVERFLOW)
-  if map.length * numColors ≥ 65536 then throw Err.fail
-  let numColorRecords := map.length * numColors
-  let newIndices := h.indices.map fun f => (map.lookup f).getD 0
-  let v0 := beBytes 2 h.version ++ beBytes 2 numColors ++ beBytes 2 h.numPalettes ++
+/-- the bytes of the root object up to and including `colorRecordIndices` -/
+def v0Bytes (version numColors numPalettes numColorRecords : Nat) (newIndices : List Nat) : List Nat :=
+  beBytes 2 version ++ beBytes 2 numColors ++ beBytes 2 numPalettes ++
     beBytes 2 numColorRecords ++ [0, 0, 0, 0] ++ newIndices.flatMap (beBytes 2)
-  if h.version ≠ 1 then
-    -- (a version >= 2 table keeps its version number but loses the version 1 header fields)
-    layout packed ⟨v0, links⟩
-  else
-    -- subset_v1
-    let some p := h.v1Pos | throw Err.trap
-    let typesPos := v0.length
-    let some typesOff := rd32 b p | throw Err.trap
-    let some labelsOff := rd32 b (p + 4) | throw Err.trap
-    let some entryLabelsOff := rd32 b (p + 8) | throw Err.trap
-    let (packed, links) ←
-      if typesOff ≠ 0 then
-        match slice b typesOff (4 * h.numPalettes) with
-        | none => throw Err.dropped                 -- `.ok_or(READ_ERROR)?` without set_err
-        | some src => packLeaf packed src typesPos links
-      else pure (packed, links)
-    let (packed, links) ←
-      if labelsOff ≠ 0 then
-        match slice b labelsOff (2 * h.numPalettes) with
-        | none => throw Err.dropped
-        | some src => packLeaf packed src (typesPos + 4) links
-      else pure (packed, links)
-    let (packed, links) ←
-      if entryLabelsOff ≠ 0 then
-        match slice b entryLabelsOff (2 * h.numEntries) with
-        | none => throw Err.dropped
-        | some src =>
-          let kept := (List.range h.numEntries).filter fun e => (palettes.lookup e).isSome
-          packLeaf packed (kept.flatMap fun e => (src.drop (2 * e)).take 2) (typesPos + 8) links
-      else pure (packed, links)
-    layout packed ⟨v0 ++ List.replicate 12 0, links⟩
+
+/-- one optional array of `subset_v1`: nothing when the source offset is null, a read error without
+serializer error when the source bytes are missing (`.ok_or(READ_ERROR)?`), else a packed leaf -/
+def optLeaf (present : Bool) (src : Option (List Nat)) (f : List Nat → List Nat) (pos : Nat)
+    (packed : List Obj) (links : List Link) : R (List Obj × List Link) :=
+  if present then
+    match src with
+    | none => throw Err.dropped
+    | some s => packLeaf packed (f s) pos links
+  else pure (packed, links)
+
+/-- `&[BigEndian<NameId>]::subset`: the labels of the entries that are keys of `colr_palettes` -/
+def keptLabels (numEntries : Nat) (palettes : List (Nat × Nat)) (src : List Nat) : List Nat :=
+  ((List.range numEntries).filter fun e => (palettes.lookup e).isSome).flatMap
+    fun e => (src.drop (2 * e)).take 2
+
+/-- `subset_v1`: the three optional arrays, each packed as a leaf and linked from the header extension
+at `typesPos` -/
+def subsetV1 (b : List Nat) (h : Header) (palettes : List (Nat × Nat)) (typesPos : Nat)
+    (packed : List Obj) (links : List Link) : R (List Obj × List Link) :=
+  match h.v1Pos with
+  | none => throw Err.trap
+  | some p =>
+    match rd32 b p, rd32 b (p + 4), rd32 b (p + 8) with
+    | some typesOff, some labelsOff, some entryLabelsOff =>
+      optLeaf (typesOff != 0) (slice b typesOff (4 * h.numPalettes)) id typesPos packed links >>= fun r1 =>
+      optLeaf (labelsOff != 0) (slice b labelsOff (2 * h.numPalettes)) id (typesPos + 4) r1.1 r1.2 >>= fun r2 =>
+      optLeaf (entryLabelsOff != 0) (slice b entryLabelsOff (2 * h.numEntries))
+        (keptLabels h.numEntries palettes) (typesPos + 8) r2.1 r2.2
+    | _, _, _ => throw Err.trap
+
+/-- the retained palette entries: the keys of `colr_palettes` except 0xFFFF (an `IntSet`: ascending) -/
+def retainedOf (palettes : List (Nat × Nat)) : List Nat := (palettes.map (·.1)).filter (· ≠ 0xFFFF)
+
+/-- `Cpal::subset` up to `end_serialize`: the packed objects and the root object.
+(Written with explicit `if … else` / `>>=` so that every branch is a separate case for the proofs.) -/
+def cpalObjects (b : List Nat) (palettes : List (Nat × Nat)) : R (List Obj × Obj) :=
+  match readHeader b with
+  | none => throw Err.dropped
+  | some h =>
+    -- subset_v0
+    let retained := retainedOf palettes
+    let numColors := retained.length % 65536
+    if palettes.isEmpty ∨ h.numPalettes = 0 ∨ retained.isEmpty then throw Err.dropped
+    -- `color_records_array()`: NULL offset or unreadable ⇒ set_err(READ_ERROR)
+    else if h.recordsOffset = 0 then throw Err.fail
+    else match slice b h.recordsOffset (4 * h.numColorRecords) with
+      | none => throw Err.fail
+      | some records =>
+        recordsGo records retained h.indices [] 0 [] >>= fun mr =>
+        packLeaf [] mr.2 8 [] >>= fun pl =>
+        -- `u16::try_from(first_record_idx_map.len())…checked_mul(num_colors)`: set_err(INT_OVERFLOW)
+        if mr.1.length * numColors ≥ 65536 then throw Err.fail
+        else
+          let v0 := v0Bytes h.version numColors h.numPalettes (mr.1.length * numColors)
+            (h.indices.map fun f => (mr.1.lookup f).getD 0)
+          -- (a version >= 2 table keeps its version number but loses the version 1 header fields)
+          if h.version ≠ 1 then pure (pl.1, ⟨v0, pl.2⟩)
+          else
+            subsetV1 b h palettes v0.length pl.1 pl.2 >>= fun r =>
+            pure (r.1, ⟨v0 ++ List.replicate 12 0, r.2⟩)
+
+/-- `Cpal::subset` + `end_serialize` + `copy_bytes` -/
+def subsetCpal (b : List Nat) (palettes : List (Nat × Nat)) : R (List Nat) := do
+  let (packed, root) ← cpalObjects b palettes
+  layout packed root
 
 /-! ## reader (what a client of read-fonts `Cpal` computes) -/
 
